@@ -35,8 +35,8 @@ git checkout -q go.sum 2>/dev/null
 res "existing suite with the change: rc=$RC_SUITE (want 0)"
 # our checks against the patched scratch copy
 for c in $CHECKS; do
-  ( cd /verif && VERIF_REPO="$WT" VERIF_DIR_OVERRIDE=1 ./check "$c" quick > "$OUT/check_$c.log" 2>&1; echo $? > "$OUT/check_$c.rc" )
+  ( cd /verif && VERIF_REPO="$WT" VERIF_EVIDENCE_ROOT="/tmp/seedverif-$PROP-$NAME" ./check "$c" quick > "$OUT/check_$c.log" 2>&1; echo $? > "$OUT/check_$c.rc" )
   res "check $c quick on the changed tree: rc=$(cat "$OUT/check_$c.rc") $(grep -c '^VIOLATION' "$OUT/check_$c.log") VIOLATION lines; first: $(grep -m1 -A1 '^VIOLATION' "$OUT/check_$c.log" | tail -1 | cut -c1-200)"
 done
 cd /; git -C /repo worktree remove --force "$WT"
-rm -rf /verif/.work/vcheck-* 2>/dev/null
+rm -rf "/tmp/seedverif-$PROP-$NAME"
